@@ -223,8 +223,24 @@ func (ex *Exec) execInstr(fr *Frame, st *State, ins ssa.Instruction) {
 			}
 		}
 		ex.onBlockingOp(fr, st, "select", x.Pos())
+		// the send ledger: a send case that is chosen sends one value
+		for i, s := range x.States {
+			if s.Dir != types.SendOnly {
+				continue
+			}
+			if cv, ok := ex.operand(fr, st, s.Chan).(TV); ok && cv.T.Sort == SInt {
+				g := ex.heapGet(st, "G:sent", SArray(SInt, SInt))
+				inc := ts.Ite(ts.Eq(idx, ts.Int(int64(i))), ts.Int(1), ts.Int(0))
+				ex.heapSet(st, "G:sent", ts.Store(g, cv.T, ts.Add(ts.Select(g, cv.T), inc)))
+			}
+		}
 		fr.vals[x] = Tuple{vs}
 	case *ssa.Send:
+		// sent(ch): number of values this call has sent on channel ch
+		if cv, ok := ex.operand(fr, st, x.Chan).(TV); ok && cv.T.Sort == SInt {
+			g := ex.heapGet(st, "G:sent", SArray(SInt, SInt))
+			ex.heapSet(st, "G:sent", ts.Store(g, cv.T, ts.Add(ts.Select(g, cv.T), ts.Int(1))))
+		}
 		return
 	case *ssa.Go:
 		ex.execGo(fr, st, x)
